@@ -127,4 +127,6 @@ def cached(name, main, repo_root, ttl=900):
 def in_tmp_dir():
     d = tempfile.mkdtemp(prefix="perm_native_")
     os.chdir(d)
+    import atexit, shutil
+    atexit.register(lambda: (os.chdir("/"), shutil.rmtree(d, ignore_errors=True)))
     return d
